@@ -57,13 +57,15 @@ fn spaces(tier: Tier) -> Vec<Space> {
 }
 
 /// rewrite rules whose applications appear as explicit proof leaves justified by the rule's name
-pub const RW_RULES: [(&str, &str, &str); 6] = [
+pub const RW_RULES: [(&str, &str, &str); 7] = [
     ("b-comm", "(b ?x ?y)", "(b ?y ?x)"),
     ("u-elim", "(u ?x)", "?x"),
     ("f-comm", "(f $a $b)", "(f $b $a)"),
     ("h-u", "(h $a)", "(u (h $a))"),
     ("lam-swap", "(lam $z (b (var $z) ?x))", "(lam $z (b ?x (var $z)))"),
     ("t-rot", "(t $a $b $c)", "(t $b $c $a)"),
+    // a right side in the substitution form: the leaf must read (let x. B, E) = B[x := E], computed by the checker itself
+    ("let-beta", "(let $x ?b ?e)", "?b[(var $x) := ?e]"),
 ];
 
 #[derive(Clone, Debug)]
@@ -91,8 +93,8 @@ fn xalpha(name: &str) -> Vec<XOp> {
 
 fn rw_spaces(tier: Tier) -> Vec<(&'static str, u32)> {
     match tier {
-        Tier::Quick => vec![("MICRO", 2), ("SHARE", 2), ("MICRO", 3)],
-        Tier::Thorough => vec![("MICRO", 2), ("SHARE", 2), ("CORE", 2), ("MICRO", 3), ("SHARE", 3), ("SAME", 2), ("SAME", 3), ("SELFX", 2), ("SELFX", 3), ("MICRO", 4)],
+        Tier::Quick => vec![("MICRO", 2), ("SHARE", 2), ("LETS", 2), ("MICRO", 3), ("LETS", 3)],
+        Tier::Thorough => vec![("MICRO", 2), ("SHARE", 2), ("LETS", 2), ("LETS", 3), ("LETS", 4), ("CORE", 2), ("MICRO", 3), ("SHARE", 3), ("SAME", 2), ("SAME", 3), ("SELFX", 2), ("SELFX", 3), ("MICRO", 4)],
     }
 }
 
@@ -432,7 +434,7 @@ mod imp {
                     let Some(j) = j else { return Err(format!("leaf {here} carries no justification although every union was justified")) };
                     if let Some((lp, rp)) = self.rules.get(j) {
                         self.kinds |= 32;
-                        return check_rule_leaf(lp, rp, &cl, &cr).map_err(|e| format!("leaf {here} is justified by rule {j:?} but is not an instance of its two sides under one substitution: {e}"));
+                        return check_rule_leaf(j, lp, rp, &cl, &cr).map_err(|e| format!("leaf {here} is justified by rule {j:?} but is not an instance of its two sides under one substitution: {e}"));
                     }
                     let Some((ua, ub)) = self.asserted.get(j) else { return Err(format!("leaf {here} carries the justification {j:?}, which the user never gave")) };
                     // The user asserted `ua = ub` (two class invocations). The leaf must be that equation up to a
@@ -663,7 +665,7 @@ mod imp {
     }
 
     /// the leaf (cl = cr) is an instance of the rule lp => rp under one substitution
-    fn check_rule_leaf(lp: &P, rp: &P, cl: &ST, cr: &ST) -> Result<(), String> {
+    fn check_rule_leaf(rule: &str, lp: &P, rp: &P, cl: &ST, cr: &ST) -> Result<(), String> {
         let mut vars = BTreeMap::new();
         let mut slots = BTreeMap::new();
         // bound pattern slots of the left side are bound to the term's binder slots during matching;
@@ -688,7 +690,13 @@ mod imp {
         let mut all = slots.clone();
         bound_map(lp, cl, &mut all);
         let mut fresh = 0;
-        let want = pinst(rp, &vars, &all, &mut fresh)?;
+        let want = if rule == "let-beta" {
+            // the right side ?b[(var $x) := ?e], computed on terms: every (var x) in the body becomes the argument
+            let (Some(b), Some(e), Some(x)) = (vars.get("b"), vars.get("e"), all.get("x")) else { return Err("left side binds no body / argument / binder".into()) };
+            subst_var(&b.0, *x, &e.0)
+        } else {
+            pinst(rp, &vars, &all, &mut fresh)?
+        };
         // equal up to alpha and up to the names of slots that occur on one side only (already redundant
         // argument positions are filled with fresh names independently on both sides)
         match match_term(&want, cr) {
@@ -706,6 +714,38 @@ mod imp {
                 Ok(())
             }
             None => Err(format!("right side should be {} but is {}", show(&want), show(cr))),
+        }
+    }
+
+    /// t[(var x) := e]; binders inside t are renamed to new slots first, so nothing of e is captured
+    fn subst_var(t: &ST, x: Slot, e: &ST) -> ST {
+        if t.op == "var" && t.args == vec![SA::Slot(x)] {
+            return e.clone();
+        }
+        ST {
+            op: t.op,
+            args: t
+                .args
+                .iter()
+                .map(|a| match a {
+                    SA::Slot(s) => SA::Slot(*s),
+                    SA::Child(c) => SA::Child(subst_var(c, x, e)),
+                    SA::Bind(xs, c) => {
+                        if xs.contains(&x) {
+                            SA::Bind(xs.clone(), c.clone())
+                        } else {
+                            let mut body = c.clone();
+                            let mut ys = Vec::new();
+                            for y in xs {
+                                let z = Slot::fresh();
+                                body = rename_free(&body, *y, z);
+                                ys.push(z);
+                            }
+                            SA::Bind(ys, subst_var(&body, x, e))
+                        }
+                    }
+                })
+                .collect(),
         }
     }
 
@@ -842,7 +882,7 @@ mod imp {
         let mut eg = EGraph::<Sym>::default();
         let mut rec: Vec<(T, AppliedId)> = Vec::new();
         let mut asserted: BTreeMap<String, (AppliedId, AppliedId)> = BTreeMap::new();
-        let rules: BTreeMap<String, (crate::props::fires::P, crate::props::fires::P)> = RW_RULES.iter().map(|(n, l, r)| (n.to_string(), (crate::props::fires::parse_p(l), crate::props::fires::parse_p(r)))).collect();
+        let rules: BTreeMap<String, (crate::props::fires::P, crate::props::fires::P)> = RW_RULES.iter().map(|(n, l, r)| (n.to_string(), (crate::props::fires::parse_p(l), crate::props::fires::parse_p(if r.contains('[') { "?b" } else { r })))).collect();
         let mut rewrote = false;
         for (k, op) in ops.iter().enumerate() {
             let got = catch(|| match op {
